@@ -24,7 +24,7 @@ TOK = re.compile(r'''
   | (?P<cmt>//[^\n]*|/\*.*?\*/)
   | (?P<pp>^[ \t]*\#[^\n]*(?:\\\n[^\n]*)*)
   | (?P<tok>::|->\*|->|\+\+|--|<<=|>>=|<<|<=|>=|==|!=|&&|\|\||\.\.\.|[-+*/%&|^]=
-       |[A-Za-z_]\w*|\d[\w.']*|"(?:\\.|[^"\\])*"|'(?:\\.|[^'\\])*'|.)
+       |\$\$[A-Z]!?|\$\*[A-Z]|\$\$|\$[0-9a-z]|[A-Za-z_]\w*|\d[\w.']*|"(?:\\.|[^"\\])*"|'(?:\\.|[^'\\])*'|.)
 ''', re.S | re.X | re.M)
 
 def tokenize(text, keep_pp=True):
@@ -51,22 +51,43 @@ def match_close(tk, i, o='{', c='}'):
             if d == 0: return j
     raise Drift("unbalanced %s at token %d (line %s)" % (o, i, getattr(tk[i], 'line', '?')))
 
+OPEN = {'(': ')', '[': ']', '{': '}'}
 def pat_match(tk, i, pat):
-    """match pattern tokens at position i. '$x' (x=1..9, A-Z) binds exactly one token,
-    '$$' skips a balanced (...) / <...> group or one token.  Returns (end, binds) or None."""
+    """match pattern tokens at position i.
+       '$x'  (x = digit/lowercase letter) binds exactly one token;
+       '$$'  skips a balanced (...) group or one token;
+       '$$X' (X = uppercase letter) binds a balanced (...) / [...] / {...} group (or one token) for re-emission;
+       '$*X' binds the (possibly empty) token run up to the next pattern token at bracket depth 0.
+       Returns (end, binds) or None."""
     b = {}; j = i
-    for p in pat:
+    for k, p in enumerate(pat):
         if j >= len(tk): return None
-        if len(p) >= 2 and p[0] == '$' and p != '$$':
+        if p == '$$':
+            j = match_close(tk, j, '(', ')') + 1 if tk[j] == '(' else j + 1
+        elif len(p) == 3 and p[:2] == '$$':
+            if tk[j] in OPEN:
+                e = match_close(tk, j, tk[j], OPEN[tk[j]]); b[p] = tk[j:e + 1]; j = e + 1
+            else:
+                b[p] = tk[j:j + 1]; j += 1
+        elif len(p) == 3 and p[:2] == '$*':
+            stop = pat[k + 1] if k + 1 < len(pat) else None
+            d = 0; e = j
+            while e < len(tk):
+                t = tk[e]
+                if d == 0 and t == stop: break
+                if t in OPEN: d += 1
+                elif t in (')', ']', '}'):
+                    d -= 1
+                    if d < 0: break
+                elif d == 0 and t == ';' and stop != ';': return None
+                e += 1
+            if e >= len(tk) or tk[e] != stop: return None
+            b[p] = tk[j:e]; j = e
+        elif len(p) == 2 and p[0] == '$':
             if p in b:
                 if b[p] != tk[j]: return None
             else: b[p] = tk[j]
             j += 1
-        elif p == '$$':
-            if tk[j] == '(':
-                j = match_close(tk, j, '(', ')') + 1
-            else:
-                j += 1
         else:
             if tk[j] != p: return None
             j += 1
@@ -280,11 +301,14 @@ def rule_targ(tk, F, templates, typevars=None):
         out.append(t); i += 1
     return out
 
-def rule_ref(tk, F, refparams):
+def rule_ref(tk, F, refparams, refvals=()):
+    """REF: reference-to-object parameter p: `p.` -> `p->` ; reference-to-scalar parameter v: `v` -> `(*v)`"""
     out = []
     for i, t in enumerate(tk):
         if t == '.' and i > 0 and tk[i - 1] in refparams:
             out.append(T('->', t.line)); F.hit('REF')
+        elif t in refvals and (i == 0 or tk[i - 1] not in ('.', '->', '::')):
+            out += [T('(', t.line), T('*', t.line), t, T(')', t.line)]; F.hit('REF')
         else: out.append(t)
     return out
 
@@ -323,7 +347,10 @@ def rule_rewrites(tk, F, rewrites):
             m = pat_match(tk, i, pat)
             if m:
                 e, b = m; L = tk[i].line
-                out += [T(b.get(r, r), L) for r in rep]
+                for r in rep:
+                    if r in b and isinstance(b[r], list): out += b[r]
+                    elif r.endswith('!') and r[:-1] in b and isinstance(b[r[:-1]], list): out += b[r[:-1]][1:-1]
+                    else: out.append(T(b.get(r, r), L))
                 i = e; n += 1
             else:
                 out.append(tk[i]); i += 1
